@@ -8,6 +8,7 @@ import (
 	"strings"
 
 	gots "github.com/Comcast/gots/v2"
+	"github.com/Comcast/gots/v2/packet"
 	"github.com/Comcast/gots/v2/scte35"
 
 	"gotsverif/engine"
@@ -1312,6 +1313,58 @@ func c08CheckLong(c c08LongCase) engine.Result {
 				break
 			}
 		}
+	case "accumulated":
+		// the documented delivery: the packets of the signal's PID go through packet.NewAccumulator with
+		// scte35.SCTE35AccumulatorDoneFunc, the accumulated bytes go to NewSCTE35. One section per unit, behind
+		// pointer_field 0 or 5, the last packet padded with 0xFF. Completion must be reported at the packet that
+		// holds the last byte of the section, not before and not after.
+		for t := c.From; t <= c.To; t++ {
+			sec, ok := c08SectionOfLength(t)
+			if !ok {
+				res.Event("target length not realisable")
+				continue
+			}
+			for _, ptr := range [...]int{0, 5} {
+				sec.Pointer = ptr
+				payload := ref.S35Bytes(&sec)
+				total := len(payload)
+				res.Nontrivial++
+				res.Evals++
+				engine.Guard(&res, "accumulated", func() {
+					acc := packet.NewAccumulator(scte35.SCTE35AccumulatorDoneFunc)
+					doneAt := -1
+					n := (total + 183) / 184
+					for i := 0; i < n; i++ {
+						chunk := ref.PadPayload(payload[i*184:min(total, (i+1)*184)], 184)
+						pk := packet.Packet(ref.CarryPayload(0x1F0, i == 0, byte(i), chunk))
+						_, err := acc.WritePacket(&pk)
+						if err == gots.ErrAccumulatorDone {
+							doneAt = i
+							break
+						}
+						if err != nil {
+							res.Failf("accumulated|WritePacket|error", "section_length %d pointer_field %d: packet %d of %d: %v", t, ptr, i+1, n, err)
+							return
+						}
+					}
+					if doneAt != n-1 {
+						res.Failf("accumulated|completion-at-the-wrong-packet", "section_length %d pointer_field %d (%d payload bytes, %d packets): completion reported at packet %d", t, ptr, total, n, doneAt+1)
+						return
+					}
+					obj, err := scte35.NewSCTE35(acc.Bytes())
+					if err != nil || obj == nil {
+						res.Failf("accumulated|NewSCTE35|error", "section_length %d pointer_field %d: the accumulated bytes do not decode: %v", t, ptr, err)
+						return
+					}
+					cmp := &c08Cmp{res: &res, op: "accumulated|NewSCTE35"}
+					cmp.what = c08Describe(&sec)
+					c08Compare(cmp, obj, &sec, false)
+				})
+				if len(res.Fail) > 8 {
+					return res
+				}
+			}
+		}
 	case "components-timed", "components-immediate":
 		c08InsertSweep(c.From, c.Kind == "components-immediate", func(sec *ref.S35Section) {
 			if len(res.Fail) > 8 {
@@ -1478,6 +1531,24 @@ func init() {
 					}
 				},
 				Check: witnessEnum(c08CheckLong, witnessSCTE), Batch: 1,
+			},
+			&engine.Enum[c08LongCase]{
+				Name: "accumulated-delivery",
+				Rule: "the documented delivery path: for EVERY section_length 40..600 and 1000..1250 (thorough: 40..4093) x pointer_field {0,5} the section is cut into 184-byte payloads (last one padded with 0xFF), written to packet.NewAccumulator(scte35.SCTE35AccumulatorDoneFunc) - completion must be reported exactly at the packet that holds the last section byte (every residue of the total length modulo 184 occurs) - and the accumulated bytes are decoded by NewSCTE35 and compared as in decode-fields",
+				Gen: func(r *engine.Run, emit func(c08LongCase)) {
+					add := func(a, b int) {
+						for t := a; t <= b; t += 16 {
+							emit(c08LongCase{Kind: "accumulated", From: t, To: min(t+15, b)})
+						}
+					}
+					if r.Thorough() {
+						add(40, 4093)
+					} else {
+						add(40, 600)
+						add(1000, 1250)
+					}
+				},
+				Check: c08CheckLong, Batch: 1,
 			},
 			&engine.Enum[c08LongCase]{
 				Name: "insert-components-sweep",
